@@ -52,6 +52,16 @@ def run_verus_unit(unit, tier):
         r.update(status='undecided', undecided=[{'reason': 'lost anchor: %s' % e}])
         r['wall_s'] = time.time() - t0
         return r
+    # trusted-base drift guard: the scale-info shim must mirror the scale-info version pinned by Cargo.lock
+    from . import shimcheck
+    for pf, names in (('scaleinfo.rs', None), ('compactas_shim.rs', ['TypeDefPrimitive'])):
+        if pf in ex['spec'].get('prelude', []):
+            ok, msgs = shimcheck.check(REPO, VERIF, pf, names)
+            r.setdefault('shim_check', []).append({'shim': pf, 'ok': ok, 'detail': msgs})
+            if not ok:
+                r.update(status='undecided', undecided=[{'reason': 'scale-info shim %s no longer mirrors the pinned scale-info: %s' % (pf, msgs)}])
+                r['wall_s'] = time.time() - t0
+                return r
     r['extract_log'] = ex['log']
     r['diff'] = ex['diff']
     r['functions'] = ex['functions']
@@ -289,7 +299,7 @@ def build_evidence(pid, P, tier, seed, unit_results, violations, known_hits, wal
             u.update({'functions_under_contract': r.get('functions'), 'verus_function_queries': n_all, 'verus_verified': n_ok,
                       'contract_clauses': r.get('clauses'), 'smt_ms': (r.get('stats') or {}).get('smt_ms'),
                       'backend': 'Verus 0.2026.09.13 -> Z3', 'per_function': fns, 'canaries': r.get('canaries'),
-                      'extraction_rules_applied': r.get('extract_log'), 'extraction_diff': r.get('diff'),
+                      'extraction_rules_applied': r.get('extract_log'), 'extraction_diff': r.get('diff'), 'shim_check': r.get('shim_check'),
                       'generated_file': r.get('gen_file')})
             if r.get('checker_cmd'):
                 cmds.append(r['checker_cmd'])
